@@ -373,8 +373,10 @@ def run(ctx, R, tier):
     gate = [n for n in walk_no_nested(cl.node) if isinstance(n, ast.If) and "_pyroConnection" in unparse(n.test)]
     send_nodes = [n for c in sends for n in ctx.node_of(cl, c)]
     told = False
-    if len(gate) == 1 and gate[0].body:
-        first = ccfg.nodes_for(gate[0].body[0])
+    if len(gate) == 1:
+        send_calls = {id(c) for c in sends}
+        side = gate[0].body if any(id(x) in send_calls for b in gate[0].body for x in ast.walk(b)) else gate[0].orelse
+        first = ccfg.nodes_for(side[0]) if side else []
         told = bool(first) and (all(n in send_nodes for n in first) or ccfg.all_paths_pass(first, lambda n: n in send_nodes, edge_ok=no_exc, targets=[ccfg.exit]))
     R.check(told, "C10-R6", "close|connected-stream-is-closed-at-the-server", "with a connected proxy every path through close() sends close_stream (%d send site(s))" % len(sends), cl.loc(),
             "close() can return for a connected proxy without having sent close_stream: the server keeps the stream (and the generator's resources) although the client closed it")
